@@ -106,14 +106,14 @@ Definition call0 (s : st) (e : event) : st := ev e (set_next_id (S (next_id s)) 
 
 Inductive prim : st -> st -> Prop :=
 | p_silent s s' : same_core s s' -> prim s s'
-| p_chunk s r rest n : wq s = r :: rest -> n <= req_size r ->
+| p_chunk s r rest n : wq s = r :: rest -> n <= req_size r -> r_sh r = false ->
     prim s (ev (EChunk (r_id r) (r_off r) n) (set_wqs (wqs s - n) (set_wq (req_update r n :: rest) s)))
 | p_finish s r rest : wq s = r :: rest -> req_done r = true -> prim s (finish_head r rest s)
 | p_fail s r rest c : wq s = r :: rest -> (c < 0)%Z -> prim s (finish_head (set_err c r) rest s)
 | p_write_fail s bufs e : check_before_write s = Some e ->
     prim s (ev (ERet (next_id s) e) (call0 s (EWrite (next_id s) (sumN bufs))))
 | p_write_enq s bufs : check_before_write s = None ->
-    prim s (set_wq (wq s ++ [mkReq (next_id s) (sumN bufs) bufs O 0 0%Z false])
+    prim s (set_wq (wq s ++ [mkReq (next_id s) (sumN bufs) bufs O 0 0%Z false false])
               (set_wqs (wqs s + sumN bufs) (call0 s (EWrite (next_id s) (sumN bufs)))))
 | p_ret_ok s id : writable s = true -> In id (map r_id (live s)) -> prim s (ev (ERet id 0%Z) s)
 | p_try_fail s bufs c : (c < 0)%Z ->
@@ -136,7 +136,16 @@ Inductive prim : st -> st -> Prop :=
 | p_shutcb s c : wq s = [] -> cq s = [] -> pq s = [] -> writable s = false -> prim s (ev (EShutCb c) s)
 | p_flush s : prim s (flush s)
 | p_closecb s : prim s (ev ECloseCb s)
-| p_q s : prim s (ev (EQ (wqs s)) s).
+| p_q s : prim s (ev (EQ (wqs s)) s)
+| p_conncb s c : prim s (ev (EConnCb c) s)
+| p_fd s r rest : wq s = r :: rest -> r_sh r = true ->
+    prim s (ev (EFd (r_id r)) (set_wq (clear_sh r :: rest) s))
+| p_fdfail s r rest : wq s = r :: rest -> r_sh r = true -> prim s (ev (EFdFail (r_id r)) s)
+| p_write2_fail s bufs e : check_before_write2 s = Some e ->
+    prim s (ev (ERet (next_id s) e) (ev (EWrite2 (next_id s)) (call0 s (EWrite (next_id s) (sumN bufs)))))
+| p_write2_enq s bufs : check_before_write2 s = None ->
+    prim s (set_wq (wq s ++ [mkReq (next_id s) (sumN bufs) bufs O 0 0%Z false true])
+              (set_wqs (wqs s + sumN bufs) (ev (EWrite2 (next_id s)) (call0 s (EWrite (next_id s) (sumN bufs)))))).
 
 Inductive steps : st -> st -> Prop :=
 | st_refl s : steps s s
@@ -184,8 +193,8 @@ Proof.
     + apply Forall_app3; auto.
     + apply Forall_app; auto.
   - (* chunk *)
-    rewrite H in *. inversion Hww; subst. inversion Hq; subst.
-    destruct (req_update_spec r n H3 H0) as (W & S & _ & _ & _ & E & F).
+    rewrite H in *. inversion Hww as [|? ? Hrw Hww']; subst. inversion Hq as [|? ? Hrq Hq']; subst.
+    destruct (req_update_spec r n Hrw H0) as (W & S & _ & _ & _ & E & F).
     constructor; unfold live; cbn.
     + rewrite Hs, !sum_rem_app; simpl. rewrite S. lia.
     + apply Forall_app3; repeat split; auto.
@@ -255,6 +264,23 @@ Proof.
       unfold UV_ECANCELED. split; [lia|congruence].
   - constructor; unfold live; cbn; auto. apply Forall_app3; auto. apply Forall_app; auto.
   - constructor; unfold live; cbn; auto. apply Forall_app3; auto. apply Forall_app; auto.
+  - constructor; unfold live; cbn; auto. apply Forall_app3; auto. apply Forall_app; auto.
+  - (* fd *)
+    rewrite H in *. inversion Hww as [|? ? Hrw Hww']; subst. inversion Hq as [|? ? Hrq Hq']; subst.
+    constructor; unfold live; cbn.
+    + rewrite Hs, !sum_rem_app; simpl. change (req_size (clear_sh r)) with (req_size r). reflexivity.
+    + apply Forall_app3; repeat split; auto.
+    + constructor; [exact Hrq | auto].
+    + apply Forall_app; auto.
+  - constructor; unfold live; cbn; auto. apply Forall_app3; auto. apply Forall_app; auto.
+  - constructor; unfold live; cbn; auto. apply Forall_app3; auto. apply Forall_app; auto.
+  - (* enqueue with a send handle *)
+    constructor; unfold live; cbn.
+    + rewrite Hs, !sum_rem_app; cbn. unfold req_size; cbn. lia.
+    + apply Forall_app3; repeat split; auto. apply Forall_app; split; auto.
+      constructor; auto. unfold rwf, req_size; simpl. split; lia.
+    + apply Forall_app; split; auto.
+    + apply Forall_app; auto.
 Qed.
 
 (* ------------------------------------------------------------------ *)
@@ -263,7 +289,8 @@ Qed.
 Definition frame (s s' : st) : Prop :=
   pq s' = pq s /\ shutreq s' = shutreq s /\ writable s' = writable s /\ shut s' = shut s /\
   closing s' = closing s /\ closed s' = closed s /\ fdopen s' = fdopen s /\ next_id s' = next_id s /\
-  blocking s' = blocking s /\ map r_id (live s') = map r_id (live s).
+  blocking s' = blocking s /\ map r_id (live s') = map r_id (live s) /\
+  connecting s' = connecting s /\ derr s' = derr s.
 
 Lemma frame_refl s : frame s s.
 Proof. unfold frame; repeat split. Qed.
@@ -288,7 +315,16 @@ Proof.
   - split. apply steps_one, p_silent; sc. unfold frame, live; cbn; repeat split.
   - destruct (wq s) as [|r rest] eqn:Hq.
     + split; [constructor | apply frame_refl].
-    + destruct (sys_write (oracle s) (offered (skipn (r_widx r) (r_bufs r)))) as [res o'] eqn:Hsys.
+    + destruct (r_sh r && negb (sh_open s)) eqn:Hclosing.
+      { (* the handle to send is closing: UV_EBADF, error exit *)
+        set (s2 := finish_head (set_err UV_EBADF r) rest s).
+        assert (P2 : prim s s2) by (apply p_fail; [exact Hq | unfold UV_EBADF; lia]).
+        assert (F2 : frame s s2).
+        { unfold frame; cbn; repeat split. apply (live_ids_finish r _ rest s); auto. }
+        split.
+        - eapply st_step; [exact P2|]. apply steps_one, p_silent; sc.
+        - eapply frame_trans; [exact F2|]. unfold frame, live; cbn; repeat split. }
+      destruct (sys_write (oracle s) (offered (skipn (r_widx r) (r_bufs r)))) as [res o'] eqn:Hsys.
       set (s0 := set_oracle o' s).
       assert (P0 : prim s s0) by (apply p_silent; sc).
       assert (F0 : frame s s0) by (unfold frame, live; cbn; repeat split).
@@ -297,46 +333,77 @@ Proof.
       * assert (Hn : n <= req_size r).
         { apply sys_write_le in Hsys. pose proof (offered_le (skipn (r_widx r) (r_bufs r))).
           unfold req_size. lia. }
+        set (sf := if r_sh r then ev (EFd (r_id r)) s0 else s0).
         set (s1 := ev (EChunk (r_id r) (r_off r) n)
-                      (set_wqs (wqs s0 - n) (set_wq (req_update r n :: rest) s0))).
-        assert (P1 : prim s0 s1) by (apply p_chunk; auto).
-        assert (F1 : frame s0 s1).
-        { unfold frame, live; cbn; repeat split. rewrite Hq. rewrite !map_app. simpl.
-          rewrite req_update_id. reflexivity. }
+                      (set_wqs (wqs sf - n) (set_wq (req_update r n :: rest) sf))).
+        assert (S1 : steps s0 s1 /\ frame s0 s1).
+        { unfold s1, sf. destruct (r_sh r) eqn:Hsh.
+          - (* the descriptor goes with this sendmsg, then the chunk *)
+            set (sa' := ev (EFd (r_id r)) (set_wq (clear_sh r :: rest) s0)).
+            assert (Pa : prim s0 sa') by (apply p_fd; auto).
+            assert (Pb : prim sa' (ev (EChunk (r_id (clear_sh r)) (r_off (clear_sh r)) n)
+                                     (set_wqs (wqs sa' - n) (set_wq (req_update (clear_sh r) n :: rest) sa')))).
+            { apply p_chunk; [reflexivity | exact Hn | reflexivity]. }
+            split.
+            + eapply st_step; [exact Pa|]. apply steps_one. exact Pb.
+            + unfold frame, live; cbn; repeat split. rewrite Hq. rewrite !map_app. simpl.
+              rewrite req_update_id. reflexivity.
+          - split.
+            + apply steps_one. apply p_chunk; auto.
+            + unfold frame, live; cbn; repeat split. rewrite Hq. rewrite !map_app. simpl.
+              rewrite req_update_id. reflexivity. }
+        destruct S1 as [S1 F1].
         destruct (req_done (req_update r n)) eqn:Hd.
         -- set (s2 := finish_head (req_update r n) rest s1).
-           assert (P2 : prim s1 s2) by (apply p_finish; auto).
+           assert (P2 : prim s1 s2) by (apply p_finish; auto; unfold s1, sf; destruct (r_sh r); reflexivity).
            assert (F2 : frame s1 s2).
            { unfold frame; cbn; repeat split.
              destruct (r_err (req_update r n) =? 0)%Z;
-               apply (live_ids_finish (req_update r n) _ rest s1); auto. }
-           assert (S2 : steps s s2) by (repeat (econstructor; eauto)).
+               apply (live_ids_finish (req_update r n) _ rest s1); auto;
+               unfold s1, sf; destruct (r_sh r); reflexivity. }
+           assert (S2 : steps s s2).
+           { eapply st_step; [exact P0|]. eapply steps_trans; [exact S1|]. apply steps_one; exact P2. }
            assert (FF : frame s s2) by (eauto using frame_trans).
            destruct count as [|c'].
            ++ split; auto.
            ++ destruct (IH c' s2) as [A B]. split; eauto using steps_trans, frame_trans.
-        -- assert (S1 : steps s s1) by (repeat (econstructor; eauto)).
+        -- assert (S1' : steps s s1) by (eapply st_step; [exact P0 | exact S1]).
            assert (FF : frame s s1) by (eauto using frame_trans).
            destruct (blocking s1).
            ++ destruct (IH count s1) as [A B]. split; eauto using steps_trans, frame_trans.
            ++ split.
-              ** eapply steps_trans; [exact S1|]. apply steps_one, p_silent; sc.
+              ** eapply steps_trans; [exact S1'|]. apply steps_one, p_silent; sc.
               ** eapply frame_trans; [exact FF|]. unfold frame, live; cbn; repeat split.
-      * assert (S0 : steps s s0) by (apply steps_one; auto).
-        destruct (blocking s0).
-        -- destruct (IH count s0) as [A B]. split; eauto using steps_trans, frame_trans.
+      * set (s0' := if r_sh r then ev (EFdFail (r_id r)) s0 else s0).
+        assert (S0 : steps s s0' /\ frame s s0').
+        { unfold s0'. destruct (r_sh r) eqn:Hsh.
+          - split.
+            + eapply st_step; [exact P0|]. apply steps_one. eapply p_fdfail; eauto.
+            + unfold frame, live; cbn; repeat split.
+          - split; [apply steps_one; exact P0 | exact F0]. }
+        destruct S0 as [S0 F0'].
+        destruct (blocking s0').
+        -- destruct (IH count s0') as [A B]. split; eauto using steps_trans, frame_trans.
         -- split.
            ++ eapply steps_trans; [exact S0|]. apply steps_one, p_silent; sc.
-           ++ eapply frame_trans; [exact F0|]. unfold frame, live; cbn; repeat split.
+           ++ eapply frame_trans; [exact F0'|]. unfold frame, live; cbn; repeat split.
       * pose proof (sys_write_err _ _ _ _ Hsys) as Hc.
-        set (s2 := finish_head (set_err c r) rest s0).
-        assert (P2 : prim s0 s2) by (apply p_fail; auto).
-        assert (F2 : frame s0 s2).
+        set (s0' := if r_sh r then ev (EFdFail (r_id r)) s0 else s0).
+        assert (S0 : steps s s0' /\ frame s s0' /\ wq s0' = r :: rest).
+        { unfold s0'. destruct (r_sh r) eqn:Hsh.
+          - split; [|split; [|exact Hq]].
+            + eapply st_step; [exact P0|]. apply steps_one. eapply p_fdfail; eauto.
+            + unfold frame, live; cbn; repeat split.
+          - split; [apply steps_one; exact P0 | split; [exact F0 | exact Hq]]. }
+        destruct S0 as (S0 & F0' & Hq0').
+        set (s2 := finish_head (set_err c r) rest s0').
+        assert (P2 : prim s0' s2) by (apply p_fail; auto).
+        assert (F2 : frame s0' s2).
         { unfold frame; cbn; repeat split.
-          destruct (c =? 0)%Z; apply (live_ids_finish r _ rest s0); auto. }
+          destruct (c =? 0)%Z; apply (live_ids_finish r _ rest s0'); auto. }
         split.
-        -- eapply st_step; [exact P0|]. eapply st_step; [exact P2|]. apply steps_one, p_silent; sc.
-        -- eapply frame_trans; [exact F0|]. eapply frame_trans; [exact F2|].
+        -- eapply steps_trans; [exact S0|]. eapply st_step; [exact P2|]. apply steps_one, p_silent; sc.
+        -- eapply frame_trans; [exact F0'|]. eapply frame_trans; [exact F2|].
            unfold frame, live; cbn; repeat split.
 Qed.
 
@@ -370,10 +437,67 @@ Proof.
     assert (Hid : In (next_id s) (map r_id (live s1))).
     { unfold live, s1; cbn. rewrite !map_app. apply in_or_app; right. apply in_or_app; right.
       apply in_or_app; right. simpl; auto. }
+    destruct (connecting s1).
+    { split.
+      - eapply st_step; [exact P1|]. apply steps_one, p_ret_ok; auto.
+      - unfold aframe. split; [reflexivity | intros Hf; rewrite Hfd in Hf; discriminate]. }
     destruct (wqs (call0 s (EWrite (next_id s) (sumN bufs))) =? 0).
     + destruct (write_loop_sim (write_fuel s1) 32 s1) as [A B].
       fold (uv_write_queue s1) in *.
-      destruct B as (B1 & B2 & B3 & B4 & B5 & B6 & B7 & B8 & B9 & B10).
+      destruct B as (B1 & B2 & B3 & B4 & B5 & B6 & B7 & B8 & B9 & B10 & _).
+      split.
+      * eapply st_step; [exact P1|]. eapply steps_trans; [exact A|].
+        apply steps_one, p_ret_ok. rewrite B3; exact Hw. rewrite B10; exact Hid.
+      * unfold aframe. split.
+        -- change (pq (ev (ERet (next_id s) 0%Z) (uv_write_queue s1))) with (pq (uv_write_queue s1)).
+           rewrite B1. reflexivity.
+        -- intros Hf. rewrite Hfd in Hf. discriminate.
+    + split.
+      * eapply st_step; [exact P1|]. eapply st_step; [apply p_silent with (s' := set_armed true s1); sc|].
+        apply steps_one, p_ret_ok; auto.
+      * unfold aframe. split; [reflexivity | intros Hf; rewrite Hfd in Hf; discriminate].
+Qed.
+
+Lemma check2_none s : check_before_write2 s = None -> fdopen s = true /\ writable s = true.
+Proof.
+  unfold check_before_write2. destruct (fdopen s), (writable s), (ipc s), (sh_open s); simpl; intros; try discriminate; auto.
+Qed.
+
+Lemma check2_some_neg s e : check_before_write2 s = Some e -> (e < 0)%Z.
+Proof.
+  unfold check_before_write2. destruct (fdopen s), (writable s), (ipc s), (sh_open s); simpl; intros H; inversion H;
+    unfold UV_EBADF, UV_EPIPE, UV_EINVAL; lia.
+Qed.
+
+Lemma check2_code_nw s e : writable s = false -> check_before_write2 s = Some e -> e = UV_EPIPE \/ e = UV_EBADF.
+Proof.
+  unfold check_before_write2. intros ->. destruct (fdopen s); simpl; intros H; inversion H; auto.
+Qed.
+
+Lemma api_write2_sim s bufs :
+  steps s (api_write2 s bufs) /\ aframe s (api_write2 s bufs).
+Proof.
+  unfold api_write2.
+  change (ev (EWrite (next_id s) (sumN bufs)) (set_next_id (S (next_id s)) s))
+    with (call0 s (EWrite (next_id s) (sumN bufs))).
+  change (check_before_write2 (ev (EWrite2 (next_id s)) (call0 s (EWrite (next_id s) (sumN bufs)))))
+    with (check_before_write2 s).
+  destruct (check_before_write2 s) as [e|] eqn:Hc.
+  - split. apply steps_one, p_write2_fail; auto. unfold aframe; cbn; auto.
+  - destruct (check2_none _ Hc) as [Hfd Hw].
+    set (s1 := set_wq _ _).
+    assert (P1 : prim s s1) by (exact (p_write2_enq s bufs Hc)).
+    assert (Hid : In (next_id s) (map r_id (live s1))).
+    { unfold live, s1; cbn. rewrite !map_app. apply in_or_app; right. apply in_or_app; right.
+      apply in_or_app; right. simpl; auto. }
+    destruct (connecting s1).
+    { split.
+      - eapply st_step; [exact P1|]. apply steps_one, p_ret_ok; auto.
+      - unfold aframe. split; [reflexivity | intros Hf; rewrite Hfd in Hf; discriminate]. }
+    destruct (wqs (ev (EWrite2 (next_id s)) (call0 s (EWrite (next_id s) (sumN bufs)))) =? 0).
+    + destruct (write_loop_sim (write_fuel s1) 32 s1) as [A B].
+      fold (uv_write_queue s1) in *.
+      destruct B as (B1 & B2 & B3 & B4 & B5 & B6 & B7 & B8 & B9 & B10 & _).
       split.
       * eapply st_step; [exact P1|]. eapply steps_trans; [exact A|].
         apply steps_one, p_ret_ok. rewrite B3; exact Hw. rewrite B10; exact Hid.
@@ -396,6 +520,9 @@ Proof.
   change (wqs (call0 s (ETry (next_id s) (sumN bufs)))) with (wqs s).
   change (check_before_write (call0 s (ETry (next_id s) (sumN bufs)))) with (check_before_write s).
   change (oracle (call0 s (ETry (next_id s) (sumN bufs)))) with (oracle s).
+  change (connecting (call0 s (ETry (next_id s) (sumN bufs)))) with (connecting s).
+  destruct (connecting s); cbn [orb].
+  { split. apply steps_one, p_try_fail. unfold UV_EAGAIN; lia. unfold aframe; cbn; auto. }
   destruct (N.eqb_spec (wqs s) 0) as [Hz|Hz]; cbn [negb].
   - destruct (check_before_write s) as [e|] eqn:Hc.
     + split. apply steps_one, p_try_fail. eapply check_some_neg; eauto. unfold aframe; cbn; auto.
@@ -452,6 +579,8 @@ Lemma api_sim s o : steps s (api s o) /\ aframe s (api s o).
 Proof.
   destruct o; cbn [api].
   - apply api_write_sim. - apply api_try_sim. - apply api_shutdown_sim. - apply api_close_sim.
+  - apply api_write2_sim.
+  - split; [apply steps_one, p_silent; sc | unfold aframe; cbn; auto].
   - split; [constructor | unfold aframe; auto].
 Qed.
 
@@ -571,10 +700,41 @@ Proof.
       * rewrite B. exact Hp1.
 Qed.
 
+Lemma stream_connect_sim s : pq s = [] ->
+  steps s (stream_connect beh s) /\ pq (stream_connect beh s) = [].
+Proof.
+  intros Hp. unfold stream_connect.
+  match goal with |- context [let '(error, s1) := ?X in _] => destruct X as [error s1] eqn:HX end.
+  assert (SC : same_core s s1).
+  { destruct (negb (derr s =? 0)%Z); [inversion HX; sc|]. destruct (sockerr s); inversion HX; sc. }
+  assert (P1 : prim s s1) by (apply p_silent; exact SC).
+  assert (Hp1 : pq s1 = []) by (destruct SC as (_ & _ & E & _); congruence).
+  destruct (error =? - EINPROGRESS)%Z.
+  { split; [apply steps_one; exact P1 | exact Hp1]. }
+  set (s2 := set_connecting false s1).
+  set (s3 := if (error <? 0)%Z || match wq s2 with [] => true | _ :: _ => false end
+             then set_armed false s2 else s2).
+  assert (P3 : prim s1 s3).
+  { apply p_silent. unfold s3. destruct ((error <? 0)%Z || _); sc. }
+  assert (Hp3 : pq s3 = []) by (unfold s3; destruct ((error <? 0)%Z || _); exact Hp1).
+  set (s3' := ev (EConnCb error) s3).
+  assert (P3' : prim s3 s3') by apply p_conncb.
+  destruct (run_cb_sim s3') as [A [B _]].
+  set (s4 := run_cb beh s3') in *.
+  assert (S4 : steps s s4) by (eapply st_step; [exact P1|]; eapply st_step; [exact P3|]; eapply st_step; [exact P3'|]; exact A).
+  assert (Hp4 : pq s4 = []) by (rewrite B; exact Hp3).
+  destruct (negb (fdopen s4)); [split; auto|].
+  destruct (error <? 0)%Z; [|split; auto].
+  assert (P5 : prim s4 (flush s4)) by apply p_flush.
+  destruct (write_callbacks_sim (flush s4) Hp4) as (C & D & _).
+  split; auto. eapply steps_trans; [exact S4|]. eapply st_step; [exact P5|]. exact C.
+Qed.
+
 Lemma stream_io_sim s : Inv0 s -> pq s = [] ->
   steps s (stream_io beh s) /\ pq (stream_io beh s) = [].
 Proof.
   intros I Hp. unfold stream_io.
+  destruct (connecting s); [apply stream_connect_sim; auto|].
   destruct (write_loop_sim (write_fuel s) 32 s) as [A F]. fold (uv_write_queue s) in *.
   set (s1 := uv_write_queue s) in *.
   assert (Hp1 : pq s1 = []) by (destruct F as (F1 & _); congruence).
@@ -594,14 +754,30 @@ Proof.
   intros I Hc Hp. unfold destroy.
   set (s0 := set_closed true s).
   assert (P0 : prim s s0) by (apply p_silent; sc).
-  set (s1 := flush s0).
-  assert (P1 : prim s0 s1) by apply p_flush.
-  assert (Hfd : fdopen s1 = false) by (destruct I as [_ I2]; apply I2 in Hc; apply Hc).
-  assert (Hp1 : pq s1 = []) by exact Hp.
+  assert (Hfd0 : fdopen s0 = false) by (destruct I as [_ I2]; apply I2 in Hc; apply Hc).
+  set (sc1 := if connecting s0
+              then set_connecting false (run_cb beh (ev (EConnCb UV_ECANCELED) s0)) else s0).
+  assert (S1 : steps s0 sc1 /\ pq sc1 = [] /\ fdopen sc1 = false).
+  { unfold sc1. destruct (connecting s0).
+    - assert (Pb : prim s0 (ev (EConnCb UV_ECANCELED) s0)) by apply p_conncb.
+      destruct (run_cb_sim (ev (EConnCb UV_ECANCELED) s0)) as [A [B1 B2]].
+      set (sb := run_cb beh (ev (EConnCb UV_ECANCELED) s0)) in *.
+      assert (Pc : prim sb (set_connecting false sb)) by (apply p_silent; sc).
+      split; [|split].
+      + eapply st_step; [exact Pb|]. eapply steps_trans; [exact A|]. apply steps_one; exact Pc.
+      + cbn. rewrite B1. exact Hp.
+      + cbn. apply B2. exact Hfd0.
+    - split; [constructor | split; auto]. }
+  destruct S1 as (S1 & Hp1' & Hfd1).
+  set (s1 := flush sc1).
+  assert (P1 : prim sc1 s1) by apply p_flush.
+  assert (Hfd : fdopen s1 = false) by exact Hfd1.
+  assert (Hp1 : pq s1 = []) by exact Hp1'.
   destruct (write_callbacks_sim s1 Hp1) as (A & Hp2 & B).
   destruct (B Hfd) as (_ & Hq2 & Hc2).
   set (s2 := write_callbacks beh s1) in *.
-  assert (S2 : steps s s2) by (eapply st_step; [exact P0|]; eapply st_step; [exact P1|]; exact A).
+  assert (S2 : steps s s2).
+  { eapply st_step; [exact P0|]. eapply steps_trans; [exact S1|]. eapply st_step; [exact P1|]. exact A. }
   assert (I2 : Inv0 s2) by (eapply Inv0_steps; eauto).
   destruct (drain_sim s2 I2 Hq2 Hc2 Hp2) as [C D].
   split.
@@ -667,11 +843,9 @@ Proof.
   intros I Hp. unfold step.
   set (s' := match o with ORun => run_iter beh s | _ => api s o end).
   assert (S : steps s s' /\ pq s' = []).
-  { unfold s'. destruct o; try (destruct (api_sim s (OWrite bufs)) as [A [B _]]; split; [exact A | congruence]);
-      try (destruct (api_sim s (OTry bufs)) as [A [B _]]; split; [exact A | congruence]).
-    - destruct (api_sim s OShutdown) as [A [B _]]; split; [exact A | congruence].
-    - destruct (api_sim s OClose) as [A [B _]]; split; [exact A | congruence].
-    - apply run_iter_sim; auto. }
+  { unfold s'. destruct o; try apply run_iter_sim; auto;
+      match goal with |- steps s (api s ?o) /\ _ =>
+        destruct (api_sim s o) as [A [B _]]; split; [exact A | congruence] end. }
   destruct S as [S Hp']. split; auto.
   eapply steps_trans; [exact S|]. apply steps_one, p_q.
 Qed.
@@ -689,28 +863,35 @@ Qed.
 
 End Sim.
 
-Lemma Inv0_init blk o sa pw : Inv0 (init blk o sa pw).
-Proof. unfold Inv0, init; cbn. split; discriminate. Qed.
+(* the three shapes of a start state *)
+Ltac init_cases c :=
+  destruct c as [[[tcp cres] so]|]; unfold init; [destruct (conn_pending_ok cres); [|destruct tcp]|].
 
-Theorem exec_steps beh blk o sa pw ops :
-  steps (init blk o sa pw) (exec beh (init blk o sa pw) ops) /\
-  pq (exec beh (init blk o sa pw) ops) = [].
-Proof. apply exec_sim. apply Inv0_init. reflexivity. Qed.
+Lemma Inv0_init blk o sa pw c ip : Inv0 (init blk o sa pw c ip).
+Proof. unfold Inv0. init_cases c; cbn; split; discriminate. Qed.
+
+Lemma pq_init blk o sa pw c ip : pq (init blk o sa pw c ip) = [].
+Proof. init_cases c; reflexivity. Qed.
+
+Theorem exec_steps beh blk o sa pw c ip ops :
+  steps (init blk o sa pw c ip) (exec beh (init blk o sa pw c ip) ops) /\
+  pq (exec beh (init blk o sa pw c ip) ops) = [].
+Proof. apply exec_sim. apply Inv0_init. apply pq_init. Qed.
 
 Lemma Inv1_steps s s' : steps s s' -> Inv1 s -> Inv1 s'.
 Proof. induction 1; eauto using Inv1_prim. Qed.
 
-Lemma Inv1_init blk o sa pw : Inv1 (init blk o sa pw).
-Proof. constructor; unfold live, init; cbn; auto. Qed.
+Lemma Inv1_init blk o sa pw c ip : Inv1 (init blk o sa pw c ip).
+Proof. init_cases c; constructor; unfold live; cbn; auto. Qed.
 
 (* C05_queue_size_exact *)
-Theorem queue_size_exact beh blk o sa pw ops :
-  let s := exec beh (init blk o sa pw) ops in
+Theorem queue_size_exact beh blk o sa pw c ip ops :
+  let s := exec beh (init blk o sa pw c ip) ops in
   wqs s = sum_rem (cq s ++ wq s) /\ pq s = [] /\
   Forall (fun r => req_size r = r_total r - r_off r /\ r_off r <= r_total r) (cq s ++ wq s).
 Proof.
-  intros s. destruct (exec_steps beh blk o sa pw ops) as [S P]. fold s in S, P.
-  pose proof (Inv1_steps _ _ S (Inv1_init blk o sa pw)) as [A B _ _].
+  intros s. destruct (exec_steps beh blk o sa pw c ip ops) as [S P]. fold s in S, P.
+  pose proof (Inv1_steps _ _ S (Inv1_init blk o sa pw c ip)) as [A B _ _].
   unfold live in *. rewrite P in *. simpl in *. repeat split; auto.
   eapply Forall_impl; [|exact B]. intros r [_ H]. lia.
 Qed.
@@ -734,13 +915,15 @@ Fixpoint cb_ids (t : list event) : list nat :=
 
 Definition ev_id_lt (n : nat) (e : event) : Prop :=
   match e with
-  | EWrite i _ | ERet i _ | ETry i _ | ETryRet i _ | EChunk i _ _ | ECb i _ _ => (i < n)%nat
+  | EWrite i _ | ERet i _ | ETry i _ | ETryRet i _ | EChunk i _ _ | ECb i _ _
+  | EWrite2 i | EFd i | EFdFail i => (i < n)%nat
   | _ => True
   end.
 
 Definition neutral (e : event) : Prop :=
   match e with
-  | EShut _ | ESysShut _ | EShutCb _ | ECloseCb | EQ _ | ETry _ _ | ETryRet _ _ => True
+  | EShut _ | ESysShut _ | EShutCb _ | ECloseCb | EQ _ | ETry _ _ | ETryRet _ _ | EConnCb _
+  | EWrite2 _ | EFd _ | EFdFail _ => True
   | _ => False
   end.
 
@@ -1054,14 +1237,39 @@ Proof.
   - rewrite app_nil_r. rewrite !map_app in *. rewrite map_lkey_set_err. exact I.
   - apply I2_neutral; simpl; auto.
   - apply I2_neutral; simpl; auto.
+  - apply I2_neutral; simpl; auto.
+  - (* fd *)
+    rewrite H in I. pose proof I as [_ _ C _ _ _ _ _ _ _ _].
+    assert (Hid : (r_id r < next_id s)%nat).
+    { rewrite Forall_forall in C. apply (C (lkey r)). apply in_map.
+      apply in_or_app; right; apply in_or_app; right; left; auto. }
+    replace (map lkey (pq s ++ cq s ++ clear_sh r :: rest)) with (map lkey (pq s ++ cq s ++ r :: rest))
+      by (rewrite !map_app; reflexivity).
+    apply I2_neutral; simpl; auto.
+  - (* fdfail *)
+    pose proof I as [_ _ C _ _ _ _ _ _ _ _].
+    assert (Hid : (r_id r < next_id s)%nat).
+    { rewrite Forall_forall in C. apply (C (lkey r)). apply in_map. rewrite H.
+      apply in_or_app; right; apply in_or_app; right; left; auto. }
+    apply I2_neutral; simpl; auto.
+  - (* write2 refused *)
+    pose proof (check2_some_neg _ _ H) as He.
+    pose proof I as [_ B C _ _ _ _ _ _ _ _].
+    apply I2_eret_fail; [lia | lia | | | apply I2_neutral; [simpl; auto | simpl; lia | apply I2_ewrite; auto]].
+    + simpl. intros X. apply (cb_ids_fresh _ _ B) in X. lia.
+    + intros X. apply in_map_iff in X. destruct X as (k & Ek & Hk).
+      rewrite Forall_forall in C. apply C in Hk. lia.
+  - (* write2 enqueued *)
+    rewrite !app_assoc. rewrite map_app. simpl. rewrite <- !app_assoc.
+    apply I2_neutral; [simpl; auto | simpl; lia |]. apply I2_call_enq; auto.
 Qed.
 
 Lemma Inv12_steps s s' : steps s s' -> Inv1 s /\ Inv2 s -> Inv1 s' /\ Inv2 s'.
 Proof. induction 1; auto. intros [A B]. apply IHsteps. split; eauto using Inv1_prim, Inv2_prim. Qed.
 
-Lemma Inv2_init blk o sa pw : Inv2 (init blk o sa pw).
+Lemma Inv2_init blk o sa pw c ip : Inv2 (init blk o sa pw c ip).
 Proof.
-  unfold Inv2, init, live; cbn. constructor; simpl; auto; try constructor; try tauto.
+  unfold Inv2, live. init_cases c; cbn; constructor; simpl; auto; try constructor; try tauto.
 Qed.
 
 (* ------------------------------------------------------------------ *)
@@ -1347,11 +1555,19 @@ Proof.
   - eapply I3_nil; eauto.
   - apply I3_plain; simpl; auto.
   - apply I3_plain; simpl; auto.
+  - apply I3_plain; simpl; auto.
+  - (* fd *)
+    rewrite H in I. apply I3_plain; [simpl; auto | exact I].
+  - apply I3_plain; simpl; auto.
+  - apply I3_plain; simpl; auto. apply I3_plain; simpl; auto. apply I3_ewrite; auto. apply I3_bump; auto.
+  - rewrite map_app. simpl. apply I3_enq.
+    + constructor; [simpl; lia|]. constructor; [simpl; lia | apply fresh_bump; auto].
+    + apply I3_plain; simpl; auto. apply I3_ewrite; auto. apply I3_bump; auto.
 Qed.
 
-Lemma Inv3_init blk o sa pw : Inv3 (init blk o sa pw).
+Lemma Inv3_init blk o sa pw c ip : Inv3 (init blk o sa pw c ip).
 Proof.
-  unfold Inv3, init; cbn. constructor; simpl; auto; try tauto.
+  unfold Inv3. init_cases c; cbn; constructor; simpl; auto; try tauto.
 Qed.
 
 Lemma Inv123_steps s s' : steps s s' -> Inv1 s /\ Inv2 s /\ Inv3 s -> Inv1 s' /\ Inv2 s' /\ Inv3 s'.
@@ -1403,12 +1619,12 @@ Qed.
 
 Section Final.
 Variable beh : nat -> list op.
-Variables (blk : bool) (o : list answer) (sa : Z) (pw : list bool) (ops : list op).
-Let s := exec beh (init blk o sa pw) ops.
+Variables (blk : bool) (o : list answer) (sa : Z) (pw : list bool) (cfg : conn_cfg) (ip : bool) (ops : list op).
+Let s := exec beh (init blk o sa pw cfg ip) ops.
 
 Lemma final_inv : Inv1 s /\ Inv2 s /\ Inv3 s /\ pq s = [].
 Proof.
-  destruct (exec_steps beh blk o sa pw ops) as [S P]. fold s in S, P.
+  destruct (exec_steps beh blk o sa pw cfg ip ops) as [S P]. fold s in S, P.
   destruct (Inv123_steps _ _ S) as (A & B & C).
   - split; [apply Inv1_init | split; [apply Inv2_init | apply Inv3_init]].
   - auto.
@@ -1488,7 +1704,8 @@ Theorem try_write_never_overtakes_inv s bufs :
 Proof.
   intros [Hs _ _ _] (r & Hr & Hp). unfold api_try.
   change (wqs (ev (ETry (next_id s) (sumN bufs)) (set_next_id (S (next_id s)) s))) with (wqs s).
-  pose proof (sum_rem_pos _ _ Hr Hp). destruct (N.eqb_spec (wqs s) 0); [lia|]. reflexivity.
+  pose proof (sum_rem_pos _ _ Hr Hp). destruct (N.eqb_spec (wqs s) 0); [lia|].
+  rewrite Bool.orb_true_r. reflexivity.
 Qed.
 
 (* ------------------------------------------------------------------ *)
@@ -1561,7 +1778,7 @@ Definition inert (e : event) : Prop :=
 Lemma Inv4_inert s e : inert e -> Inv4 s -> Inv4 (ev e s).
 Proof.
   intros Hi. apply Inv4_event.
-  - intros X _. unfold hold_ok. destruct X as [| | | | | | z | | | |]; auto; try (destruct e; simpl in *; tauto).
+  - intros X _. unfold hold_ok. destruct X as [| | | | | | z | | | | | | | |]; auto; try (destruct e; simpl in *; tauto).
     destruct z; auto. destruct e; simpl in *; tauto.
   - destruct e; simpl in *; tauto.
 Qed.
@@ -1585,7 +1802,7 @@ Proof.
   - intros c H. destruct (E c H) as [_ X]. rewrite X in Hw. discriminate.
 Qed.
 
-Ltac hold_cases X z a c := destruct X as [| | | | | | z | a | c | |]; unfold hold_ok; simpl; auto;
+Ltac hold_cases X z a c := destruct X as [| | | | | | z | a | c | | | | | |]; unfold hold_ok; simpl; auto;
                            [destruct z; simpl; auto | ..].
 
 Lemma Inv4_prim s s' : prim s s' -> Inv4 s -> Inv4 s'.
@@ -1661,14 +1878,32 @@ Proof.
     apply (Inv4_state s); auto. unfold idle; cbn. intros (A & B & C). rewrite A, B. auto.
   - apply Inv4_inert; simpl; auto.
   - apply Inv4_inert; simpl; auto.
+  - apply Inv4_inert; simpl; auto.
+  - (* fd *)
+    apply Inv4_inert; simpl; auto. apply (Inv4_state s); auto; cbn.
+    + intros Hq. rewrite Hq in H. discriminate.
+    + intros [Hq _]. rewrite Hq in H. discriminate.
+  - apply Inv4_inert; simpl; auto.
+  - (* uv_write2 refused *)
+    apply Inv4_event; [ | simpl; auto | ].
+    + intros X HX. cbn in HX. destruct HX as [HX|HX]; [subst X; simpl; auto|].
+      destruct HX as [HX|HX]; [subst X; simpl; auto|].
+      hold_cases X z a c.
+      * destruct I as [A _ _ _ _ _]. apply (check2_code_nw s); auto.
+      * pose proof (check2_some_neg _ _ H). lia.
+    + apply Inv4_inert; simpl; auto. apply Inv4_inert; simpl; auto. apply (Inv4_state s); auto.
+  - (* uv_write2 enqueued: the stream is writable *)
+    destruct (check2_none _ H) as [_ Hw].
+    apply (Inv4_state_w (ev (EWrite2 (next_id s)) (ev (EWrite (next_id s) (sumN bufs)) (set_next_id (S (next_id s)) s)))); auto.
+    apply Inv4_inert; simpl; auto. apply Inv4_inert; simpl; auto. apply (Inv4_state s); auto.
 Qed.
 
 Lemma Inv4_steps s s' : steps s s' -> Inv4 s -> Inv4 s'.
 Proof. induction 1; eauto using Inv4_prim. Qed.
 
-Lemma Inv4_init blk o sa pw : Inv4 (init blk o sa pw).
+Lemma Inv4_init blk o sa pw c ip : Inv4 (init blk o sa pw c ip).
 Proof.
-  constructor; unfold init; cbn; try tauto;
+  init_cases c; constructor; cbn; try tauto;
     intros; match goal with H : [] = ?l ++ _ :: _ |- _ => destruct l; discriminate end.
 Qed.
 
@@ -1680,12 +1915,12 @@ Qed.
 
 Section Final2.
 Variable beh : nat -> list op.
-Variables (blk : bool) (o : list answer) (sa : Z) (pw : list bool) (ops : list op).
-Let s := exec beh (init blk o sa pw) ops.
+Variables (blk : bool) (o : list answer) (sa : Z) (pw : list bool) (cfg : conn_cfg) (ip : bool) (ops : list op).
+Let s := exec beh (init blk o sa pw cfg ip) ops.
 
 Lemma final_inv4 : Inv4 s.
 Proof.
-  destruct (exec_steps beh blk o sa pw ops) as [S _]. eapply Inv4_steps; eauto. apply Inv4_init.
+  destruct (exec_steps beh blk o sa pw cfg ip ops) as [S _]. eapply Inv4_steps; eauto. apply Inv4_init.
 Qed.
 
 Lemma cb_ids_nil l : Forall q_after_cb l -> cb_ids l = [].
@@ -1719,10 +1954,10 @@ End Final2.
 Definition shutdown_cb_last (t : list event) : Prop :=
   forall l1 l2 c, t = l1 ++ EShutCb c :: l2 -> cb_ids l2 = [].
 
-Theorem shutdown_cb_last_holds beh blk o sa pw ops :
-  shutdown_cb_last (trace (exec beh (init blk o sa pw) ops)).
+Theorem shutdown_cb_last_holds beh blk o sa pw cfg ip ops :
+  shutdown_cb_last (trace (exec beh (init blk o sa pw cfg ip) ops)).
 Proof.
-  intros l1 l2 c H. destruct (shutdown_last beh blk o sa pw ops) as (_ & _ & _ & X).
+  intros l1 l2 c H. destruct (shutdown_last beh blk o sa pw cfg ip ops) as (_ & _ & _ & X).
   destruct (X c l1 l2 H) as [Y _]. exact Y.
 Qed.
 
@@ -1731,12 +1966,44 @@ Definition beh_refute (k : nat) : list op :=
   match k with O => [OWrite [2]; OShutdown] | _ => [] end.
 
 (* ------------------------------------------------------------------ *)
-(* progress: a non-empty write queue is never left without a wake-up   *)
+(* progress: a non-empty write queue, or a pending connect, is never   *)
+(* left without a wake-up                                              *)
 (* ------------------------------------------------------------------ *)
-Definition Prog (s : st) : Prop :=
-  closing s = true \/ wq s = [] \/ armed s = true \/ fed s = true.
+Definition FC (s : st) : Prop := fdopen s = false -> closing s = true.
 
-Definition cl_mono (s s' : st) : Prop := closing s = true -> closing s' = true.
+(* while connecting: POLLOUT is armed, or a delayed error is waiting for the next tick *)
+Definition C1 (s : st) : Prop :=
+  (derr s = 0%Z /\ armed s = true) \/ ((derr s < 0)%Z /\ derr s <> (- EINPROGRESS)%Z).
+
+Definition Prog (s : st) : Prop :=
+  FC s /\
+  (closing s = true \/
+   if connecting s then C1 s /\ (armed s = true \/ fed s = true)
+   else wq s = [] \/ armed s = true \/ fed s = true).
+
+(* what uv__stream_io needs on entry (the watcher may just have left the pending queue) *)
+Definition PreIO (s : st) : Prop := FC s /\ (closing s = true \/ (connecting s = true -> C1 s)).
+
+Definition KC (s s' : st) : Prop := (closing s = true -> closing s' = true) /\ (FC s -> FC s').
+Definition CD (s s' : st) : Prop := connecting s' = connecting s /\ derr s' = derr s.
+
+Lemma KC_refl s : KC s s. Proof. unfold KC; auto. Qed.
+Lemma KC_trans a b c : KC a b -> KC b c -> KC a c. Proof. unfold KC; intuition. Qed.
+Lemma CD_refl s : CD s s. Proof. unfold CD; auto. Qed.
+Lemma CD_trans a b c : CD a b -> CD b c -> CD a c. Proof. unfold CD; intuition congruence. Qed.
+
+Lemma KC_same s s' : closing s' = closing s -> fdopen s' = fdopen s -> KC s s'.
+Proof. unfold KC, FC. intros -> ->. auto. Qed.
+
+Lemma Prog_PreIO s : Prog s -> PreIO s.
+Proof.
+  intros [F [H|H]]; split; auto. destruct (connecting s); [right; intros _; apply H | right; discriminate].
+Qed.
+
+Lemma Prog_same s s' :
+  closing s' = closing s -> fdopen s' = fdopen s -> connecting s' = connecting s -> derr s' = derr s ->
+  wq s' = wq s -> armed s' = armed s -> fed s' = fed s -> Prog s -> Prog s'.
+Proof. unfold Prog, FC, C1. intros -> -> -> -> -> -> ->. auto. Qed.
 
 Lemma write_loop_prog : forall fuel count s,
   let s' := write_loop fuel count s in
@@ -1754,166 +2021,330 @@ Proof.
     + cbn. auto.
 Qed.
 
-Lemma uv_write_queue_prog s : Prog (uv_write_queue s) /\ cl_mono s (uv_write_queue s).
+Lemma uv_write_queue_frame s :
+  closing (uv_write_queue s) = closing s /\ fdopen (uv_write_queue s) = fdopen s /\
+  connecting (uv_write_queue s) = connecting s /\ derr (uv_write_queue s) = derr s.
 Proof.
-  unfold uv_write_queue. split.
-  - right. apply write_loop_prog.
-  - destruct (write_loop_sim (write_fuel s) 32 s) as [_ F].
-    destruct F as (_ & _ & _ & _ & Fc & _). unfold cl_mono. congruence.
+  unfold uv_write_queue. destruct (write_loop_sim (write_fuel s) 32 s) as [_ F].
+  destruct F as (_ & _ & _ & _ & F1 & _ & F2 & _ & _ & _ & F3 & F4). auto.
 Qed.
 
-Lemma Prog_same s s' :
-  closing s' = closing s -> wq s' = wq s -> armed s' = armed s -> fed s' = fed s -> Prog s -> Prog s'.
-Proof. unfold Prog. intros -> -> -> ->. auto. Qed.
+(* API calls *)
+Lemma api_kc_cd s o : KC s (api s o) /\ CD s (api s o).
+Proof.
+  destruct o; cbn [api].
+  - unfold api_write.
+    set (s0 := ev (EWrite (next_id s) (sumN bufs)) (set_next_id (S (next_id s)) s)).
+    destruct (check_before_write s0); [split; [apply KC_same | unfold CD]; auto|].
+    set (s1 := set_wq _ _).
+    destruct (connecting s1); [split; [apply KC_same | unfold CD]; auto|].
+    destruct (wqs s0 =? 0); [|split; [apply KC_same | unfold CD]; auto].
+    destruct (uv_write_queue_frame s1) as (A & B & C & D).
+    split; [apply KC_same; [exact A | exact B] | unfold CD; split; [exact C | exact D]].
+  - unfold api_try.
+    set (s0 := ev (ETry (next_id s) (sumN bufs)) (set_next_id (S (next_id s)) s)).
+    destruct (connecting s0 || negb (wqs s0 =? 0)); [split; [apply KC_same | unfold CD]; auto|].
+    destruct (check_before_write s0); [split; [apply KC_same | unfold CD]; auto|].
+    destruct (sys_write (oracle s0) (offered bufs)) as [res o']. destruct res;
+      (split; [apply KC_same | unfold CD]; auto).
+  - unfold api_shutdown.
+    destruct (negb (writable s) || shut s || shutreq s || closing s || closed s);
+      [split; [apply KC_same | unfold CD]; auto|].
+    cbn. destruct (wq s); (split; [apply KC_same | unfold CD]; auto).
+  - unfold api_close. destruct (closing s) eqn:Hc; [split; [apply KC_refl | apply CD_refl]|].
+    split; [|unfold CD; auto]. unfold KC, FC; cbn. auto.
+  - split; [apply KC_refl | apply CD_refl].
+Qed.
 
-Lemma api_prog s o : Prog s -> Prog (api s o) /\ cl_mono s (api s o).
+Lemma Prog_conn_enq s s' :
+  connecting s = true -> closing s' = closing s -> fdopen s' = fdopen s -> connecting s' = connecting s ->
+  derr s' = derr s -> armed s' = armed s -> fed s' = fed s -> Prog s -> Prog s'.
+Proof. unfold Prog, FC, C1. intros Hc -> -> -> -> -> ->. rewrite Hc. auto. Qed.
+
+Lemma api_prog s o : Prog s -> Prog (api s o).
 Proof.
   intros P. destruct o; cbn [api].
   - unfold api_write.
     set (s0 := ev (EWrite (next_id s) (sumN bufs)) (set_next_id (S (next_id s)) s)).
-    destruct (check_before_write s0).
-    + split; [apply (Prog_same s); auto | unfold cl_mono; auto].
-    + set (s1 := set_wq _ _).
-      destruct (wqs s0 =? 0).
-      * destruct (uv_write_queue_prog s1) as [A B]. split.
-        -- apply (Prog_same (uv_write_queue s1)); auto.
-        -- unfold cl_mono in *. intros H. apply B. exact H.
-      * split; [right; right; left; reflexivity | unfold cl_mono; auto].
+    destruct (check_before_write s0); [apply (Prog_same s); auto|].
+    set (s1 := set_wq _ _).
+    destruct (connecting s1) eqn:Hc; [apply (Prog_conn_enq s); auto|].
+    destruct P as [F P]. assert (F1 : FC s1) by exact F.
+    destruct (wqs s0 =? 0).
+    + destruct (uv_write_queue_frame s1) as (A & B & C & D).
+      apply (Prog_same (uv_write_queue s1)); auto.
+      split.
+      * unfold FC. rewrite A, B. exact F1.
+      * right. rewrite C, Hc. apply write_loop_prog.
+    + apply (Prog_same (set_armed true s1)); auto.
+      split; [exact F1|]. right. change (connecting (set_armed true s1)) with (connecting s1). rewrite Hc.
+      right; left; reflexivity.
   - unfold api_try.
     set (s0 := ev (ETry (next_id s) (sumN bufs)) (set_next_id (S (next_id s)) s)).
-    destruct (negb (wqs s0 =? 0)); [split; [apply (Prog_same s); auto | unfold cl_mono; auto]|].
-    destruct (check_before_write s0); [split; [apply (Prog_same s); auto | unfold cl_mono; auto]|].
-    destruct (sys_write (oracle s0) (offered bufs)) as [res o']. destruct res;
-      (split; [apply (Prog_same s); auto | unfold cl_mono; auto]).
+    destruct (connecting s0 || negb (wqs s0 =? 0)); [apply (Prog_same s); auto|].
+    destruct (check_before_write s0); [apply (Prog_same s); auto|].
+    destruct (sys_write (oracle s0) (offered bufs)) as [res o']. destruct res; apply (Prog_same s); auto.
   - unfold api_shutdown.
-    destruct (negb (writable s) || shut s || shutreq s || closing s || closed s).
-    + split; [apply (Prog_same s); auto | unfold cl_mono; auto].
-    + cbn. destruct (wq s) eqn:Hq.
-      * split; [right; left; exact Hq | unfold cl_mono; auto].
-      * split; [apply (Prog_same s); auto | unfold cl_mono; auto].
-  - unfold api_close. destruct (closing s) eqn:Hc.
-    + split; [exact P | unfold cl_mono; auto].
-    + split; [left; reflexivity | unfold cl_mono; auto].
-  - split; [exact P | unfold cl_mono; auto].
+    destruct (negb (writable s) || shut s || shutreq s || closing s || closed s); [apply (Prog_same s); auto|].
+    cbn. destruct (wq s) eqn:Hq; [|apply (Prog_same s); auto].
+    destruct P as [F P]. split; [exact F|]. destruct P as [P|P]; [left; exact P | right].
+    cbn. destruct (connecting s); [|auto]. destruct P as [X Y]. split; [exact X | auto].
+  - unfold api_close. destruct (closing s) eqn:Hc; [exact P|].
+    split; [unfold FC; cbn; auto | left; reflexivity].
+  - exact P.
 Qed.
 
-Lemma apis_prog os : forall s, Prog s -> Prog (apis s os) /\ cl_mono s (apis s os).
+Lemma apis_kc_cd os : forall s, KC s (apis s os) /\ CD s (apis s os).
 Proof.
-  induction os as [|o os IH]; intros s P; cbn [apis].
-  - split; [exact P | unfold cl_mono; auto].
-  - destruct (api_prog s o P) as [A B]. destruct (IH _ A) as [C D].
-    split; auto. unfold cl_mono in *. auto.
+  induction os as [|o os IH]; intros s; cbn [apis]; [split; [apply KC_refl | apply CD_refl]|].
+  destruct (api_kc_cd s o) as [A B]. destruct (IH (api s o)) as [C D].
+  split; eauto using KC_trans, CD_trans.
 Qed.
+
+Lemma apis_prog os : forall s, Prog s -> Prog (apis s os).
+Proof. induction os as [|o os IH]; intros s P; cbn [apis]; auto. apply IH, api_prog, P. Qed.
 
 Section ProgCb.
 Variable beh : nat -> list op.
 
-Lemma run_cb_prog s : Prog s -> Prog (run_cb beh s) /\ cl_mono s (run_cb beh s).
+Lemma run_cb_kc_cd s : KC s (run_cb beh s) /\ CD s (run_cb beh s).
 Proof.
-  intros P. unfold run_cb. apply (apis_prog _ (set_cbn (S (StreamWrite.cbn s)) s)).
-  apply (Prog_same s); auto.
+  unfold run_cb. destruct (apis_kc_cd (beh (StreamWrite.cbn s)) (set_cbn (S (StreamWrite.cbn s)) s)) as [A B].
+  split; [eapply KC_trans; [|exact A]; apply KC_same; reflexivity
+         | eapply CD_trans; [|exact B]; unfold CD; auto].
 Qed.
 
-Lemma cb_loop_prog l : forall s, Prog s -> Prog (cb_loop beh l s) /\ cl_mono s (cb_loop beh l s).
+Lemma run_cb_prog s : Prog s -> Prog (run_cb beh s).
+Proof. intros P. unfold run_cb. apply apis_prog. apply (Prog_same s); auto. Qed.
+
+Lemma cb_step_same r rest s :
+  let s3 := ev (ECb (r_id r) (r_err r)
+                    (wqs (if r_freed r then set_pq rest s else set_wqs (wqs (set_pq rest s) - req_size r) (set_pq rest s))))
+               (if r_freed r then set_pq rest s else set_wqs (wqs (set_pq rest s) - req_size r) (set_pq rest s)) in
+  closing s3 = closing s /\ fdopen s3 = fdopen s /\ connecting s3 = connecting s /\ derr s3 = derr s /\
+  wq s3 = wq s /\ armed s3 = armed s /\ fed s3 = fed s.
+Proof. destruct (r_freed r); cbn; repeat split. Qed.
+
+Lemma cb_loop_kc_cd l : forall s, KC s (cb_loop beh l s) /\ CD s (cb_loop beh l s).
 Proof.
-  induction l as [|r rest IH]; intros s P; cbn [cb_loop].
-  - split; [exact P | unfold cl_mono; auto].
-  - cbv zeta.
-    match goal with |- context [run_cb beh ?x] => set (s3 := x) end.
-    assert (P3 : Prog s3) by (unfold s3; destruct (r_freed r); apply (Prog_same s); auto).
-    assert (C3 : closing s3 = closing s) by (unfold s3; destruct (r_freed r); reflexivity).
-    destruct (run_cb_prog s3 P3) as [A B]. destruct (IH _ A) as [C D].
-    split; auto. unfold cl_mono in *. intros H. apply D, B. congruence.
+  induction l as [|r rest IH]; intros s; cbn [cb_loop]; [split; [apply KC_refl | apply CD_refl]|].
+  cbv zeta. destruct (cb_step_same r rest s) as (E1 & E2 & E3 & E4 & _).
+  match goal with |- context [run_cb beh ?x] => set (s3 := x) in * end.
+  destruct (run_cb_kc_cd s3) as [A B]. destruct (IH (run_cb beh s3)) as [C D].
+  split.
+  - eapply KC_trans; [apply (KC_same s s3); assumption|]. eapply KC_trans; eauto.
+  - eapply CD_trans; [unfold CD; split; eassumption|]. eapply CD_trans; eauto.
 Qed.
 
-Lemma write_callbacks_prog s : Prog s -> Prog (write_callbacks beh s) /\ cl_mono s (write_callbacks beh s).
+Lemma cb_loop_prog l : forall s, Prog s -> Prog (cb_loop beh l s).
 Proof.
-  intros P. unfold write_callbacks. destruct (cq s) as [|r l].
-  - split; [exact P | unfold cl_mono; auto].
-  - apply (cb_loop_prog (r :: l) (set_pq (r :: l) (set_cq [] s))). apply (Prog_same s); auto.
+  induction l as [|r rest IH]; intros s P; cbn [cb_loop]; auto.
+  cbv zeta. destruct (cb_step_same r rest s) as (E1 & E2 & E3 & E4 & E5 & E6 & E7).
+  match goal with |- context [run_cb beh ?x] => set (s3 := x) in * end.
+  apply IH, run_cb_prog. apply (Prog_same s); assumption.
 Qed.
 
-Lemma drain_prog s : wq s = [] \/ closing s = true -> Prog (drain beh s) /\ cl_mono s (drain beh s).
+Lemma write_callbacks_kc_cd s : KC s (write_callbacks beh s) /\ CD s (write_callbacks beh s).
 Proof.
-  intros Hq. unfold drain.
+  unfold write_callbacks. destruct (cq s) as [|r l]; [split; [apply KC_refl | apply CD_refl]|].
+  destruct (cb_loop_kc_cd (r :: l) (set_pq (r :: l) (set_cq [] s))) as [A B].
+  split; [eapply KC_trans; [|exact A]; apply KC_same; reflexivity
+         | eapply CD_trans; [|exact B]; unfold CD; auto].
+Qed.
+
+Lemma write_callbacks_prog s : Prog s -> Prog (write_callbacks beh s).
+Proof.
+  intros P. unfold write_callbacks. destruct (cq s) as [|r l]; auto.
+  apply cb_loop_prog. apply (Prog_same s); auto.
+Qed.
+
+(* uv__drain: flag changes, trace events, one callback *)
+Lemma drain_shape s :
+  exists s5, (drain beh s = s5 \/ drain beh s = run_cb beh s5) /\
+    closing s5 = closing s /\ fdopen s5 = fdopen s /\ connecting s5 = connecting s /\ derr s5 = derr s /\
+    wq s5 = wq s /\ fed s5 = fed s /\ (armed s5 = armed s \/ (closing s = false /\ armed s5 = false)).
+Proof.
+  unfold drain.
   set (s1 := if closing s then s else set_armed false s).
-  assert (P1 : Prog s1).
-  { unfold s1. destruct (closing s) eqn:Hc; [left; exact Hc|].
-    destruct Hq as [Hq|Hq]; [right; left; exact Hq | discriminate]. }
-  assert (C1 : closing s1 = closing s) by (unfold s1; destruct (closing s) eqn:Hcs; cbn; auto).
-  assert (M1 : cl_mono s s1) by (unfold cl_mono; congruence).
-  destruct (negb (shutreq s1)); [split; auto|].
-  destruct (closing s1 || negb (shut s1)); [|split; auto].
-  set (s2 := set_shutreq false s1).
-  assert (P2 : forall e, Prog (ev e s2)) by (intros e; apply (Prog_same s1); auto).
-  change (closing s2) with (closing s1).
-  destruct (closing s1) eqn:Hc1.
-  - destruct (run_cb_prog _ (P2 (EShutCb UV_ECANCELED))) as [A B]. split; auto.
-    unfold cl_mono in *. intros _. apply B. exact Hc1.
+  assert (E1 : closing s1 = closing s /\ fdopen s1 = fdopen s /\ connecting s1 = connecting s /\
+               derr s1 = derr s /\ wq s1 = wq s /\ fed s1 = fed s /\
+               (armed s1 = armed s \/ (closing s = false /\ armed s1 = false))).
+  { unfold s1. destruct (closing s) eqn:Hc; cbn; repeat split; auto. }
+  destruct (negb (shutreq s1)); [exists s1; split; auto|].
+  destruct (closing s1 || negb (shut s1)); [|exists s1; split; auto].
+  set (s2 := set_shutreq false s1). change (closing s2) with (closing s1).
+  remember (closing s1) as b eqn:Hb.
+  assert (Fin : forall s5, closing s5 = closing s1 -> fdopen s5 = fdopen s1 -> connecting s5 = connecting s1 ->
+                derr s5 = derr s1 -> wq s5 = wq s1 -> fed s5 = fed s1 -> armed s5 = armed s1 ->
+                closing s5 = closing s /\ fdopen s5 = fdopen s /\ connecting s5 = connecting s /\ derr s5 = derr s /\
+                wq s5 = wq s /\ fed s5 = fed s /\ (armed s5 = armed s \/ (closing s = false /\ armed s5 = false))).
+  { intros s5 -> -> -> -> -> -> ->. rewrite <- Hb. exact E1. }
+  destruct b.
+  - exists (ev (EShutCb UV_ECANCELED) s2). split; [right; reflexivity | apply Fin; reflexivity].
   - set (s3 := ev (ESysShut (shutans s2)) s2). change (shutans s3) with (shutans s2).
     destruct (shutans s2 =? 0)%Z.
-    + assert (P5 : Prog (ev (EShutCb 0%Z) (set_shut true s3))) by (apply (Prog_same s1); auto).
-      destruct (run_cb_prog _ P5) as [A B]. split; auto.
-      unfold cl_mono in *. intros H. congruence.
-    + assert (P5 : Prog (ev (EShutCb (shutans s2)) s3)) by (apply (Prog_same s1); auto).
-      destruct (run_cb_prog _ P5) as [A B]. split; auto.
-      unfold cl_mono in *. intros H. congruence.
+    + exists (ev (EShutCb 0%Z) (set_shut true s3)). split; [right; reflexivity | apply Fin; reflexivity].
+    + exists (ev (EShutCb (shutans s2)) s3). split; [right; reflexivity | apply Fin; reflexivity].
 Qed.
 
-Lemma stream_io_prog s : Prog (stream_io beh s) /\ cl_mono s (stream_io beh s).
+Lemma drain_kc s : KC s (drain beh s).
 Proof.
-  unfold stream_io. destruct (uv_write_queue_prog s) as [A B].
-  destruct (write_callbacks_prog _ A) as [C D].
+  destruct (drain_shape s) as (s5 & [E|E] & A & B & _); rewrite E.
+  - apply KC_same; auto.
+  - eapply KC_trans; [apply (KC_same s s5); auto | apply run_cb_kc_cd].
+Qed.
+
+Lemma drain_prog s : FC s -> connecting s = false -> wq s = [] \/ closing s = true -> Prog (drain beh s).
+Proof.
+  intros F Hc Hq.
+  destruct (drain_shape s) as (s5 & E & A & B & C & D & W & Fe & Ar).
+  assert (P5 : Prog s5).
+  { split; [unfold FC; rewrite A, B; exact F|]. rewrite A, C, Hc, W.
+    destruct Hq as [Hq|Hq]; [right; left; exact Hq | left; exact Hq]. }
+  destruct E as [E|E]; rewrite E; [exact P5 | apply run_cb_prog, P5].
+Qed.
+
+(* uv__stream_connect *)
+Lemma stream_connect_kc s : KC s (stream_connect beh s).
+Proof.
+  unfold stream_connect.
+  match goal with |- context [let '(error, s1) := ?X in _] => destruct X as [error s1] eqn:HX end.
+  assert (E1 : closing s1 = closing s /\ fdopen s1 = fdopen s).
+  { destruct (negb (derr s =? 0)%Z); [inversion HX; auto|]. destruct (sockerr s); inversion HX; auto. }
+  destruct E1 as [E1 E2].
+  destruct (error =? - EINPROGRESS)%Z; [apply KC_same; auto|].
+  set (s2 := set_connecting false s1).
+  match goal with |- context [run_cb beh (ev (EConnCb error) ?x)] => set (s3 := x) end.
+  assert (K3 : KC s (ev (EConnCb error) s3)).
+  { apply KC_same; unfold s3; destruct ((error <? 0)%Z || _); cbn; auto. }
+  destruct (run_cb_kc_cd (ev (EConnCb error) s3)) as [K4 _].
+  set (s4 := run_cb beh (ev (EConnCb error) s3)) in *.
+  assert (K : KC s s4) by (eapply KC_trans; eauto).
+  destruct (negb (fdopen s4)); auto.
+  destruct (error <? 0)%Z; auto.
+  eapply KC_trans; [exact K|]. eapply KC_trans; [apply (KC_same s4 (flush s4)); reflexivity|].
+  apply write_callbacks_kc_cd.
+Qed.
+
+Lemma stream_connect_prog s : FC s -> connecting s = true -> C1 s -> Prog (stream_connect beh s).
+Proof.
+  intros F Hc HC. unfold stream_connect.
+  match goal with |- context [let '(error, s1) := ?X in _] => destruct X as [error s1] eqn:HX end.
+  assert (E1 : closing s1 = closing s /\ fdopen s1 = fdopen s /\ connecting s1 = connecting s /\
+               wq s1 = wq s /\ armed s1 = armed s /\ fed s1 = fed s /\
+               ((error = derr s /\ (derr s < 0)%Z /\ derr s <> (- EINPROGRESS)%Z) \/
+                (derr s1 = 0%Z /\ armed s = true))).
+  { destruct (Z.eqb_spec (derr s) 0) as [Hd|Hd]; cbn [negb] in HX.
+    - assert (Ha : armed s = true) by (destruct HC as [[_ X]|[X _]]; [exact X | lia]).
+      destruct (sockerr s); inversion HX; subst; cbn; repeat split; auto.
+    - inversion HX; subst; cbn. repeat split; auto. left.
+      destruct HC as [[X _]|[X Y]]; [contradiction | auto]. }
+  destruct E1 as (Ec & Ef & Eco & Ew & Ea & Efe & Hcase).
+  assert (F1 : FC s1) by (unfold FC; rewrite Ec, Ef; exact F).
+  destruct (Z.eqb_spec error (- EINPROGRESS)) as [He|He].
+  { (* still in progress: nothing consumed but an SO_ERROR answer *)
+    destruct Hcase as [(X & _ & Y)|[Hd Ha]]; [congruence|].
+    split; [exact F1|]. right. rewrite Eco, Hc. split; [left; rewrite Ea; auto | left; rewrite Ea; exact Ha]. }
+  set (s2 := set_connecting false s1).
+  match goal with |- context [run_cb beh (ev (EConnCb error) ?x)] => set (s3 := x) end.
+  assert (E3 : closing s3 = closing s1 /\ fdopen s3 = fdopen s1 /\ connecting s3 = false /\ wq s3 = wq s1).
+  { unfold s3. destruct ((error <? 0)%Z || _); cbn; auto. }
+  destruct E3 as (E3c & E3f & E3co & E3w).
+  assert (F3 : FC (ev (EConnCb error) s3)) by (unfold FC; cbn; rewrite E3c, E3f; exact F1).
+  destruct (run_cb_kc_cd (ev (EConnCb error) s3)) as [[K4a K4b] [K4c _]].
+  destruct (Z.ltb_spec error 0) as [Hneg|Hpos].
+  - (* failed: whatever the callback does, the queue is flushed afterwards *)
+    set (s4 := run_cb beh (ev (EConnCb error) s3)) in *.
+    assert (F4 : FC s4) by (apply K4b; exact F3).
+    destruct (fdopen s4) eqn:Hfd; cbn [negb].
+    + apply write_callbacks_prog. split; [exact F4|]. right.
+      assert (Hc4 : connecting (flush s4) = false).
+      { change (connecting (flush s4)) with (connecting s4). rewrite K4c. exact E3co. }
+      rewrite Hc4. left; reflexivity.
+    + split; [exact F4 | left; apply F4; exact Hfd].
+  - (* connected: POLLOUT stays armed iff something is queued *)
+    assert (Ha : armed s1 = true).
+    { destruct Hcase as [(X & Y & _)|[_ Ha]]; [lia | rewrite Ea; exact Ha]. }
+    assert (P3 : Prog (ev (EConnCb error) s3)).
+    { split; [exact F3|]. right. cbn. rewrite E3co. unfold s3.
+      destruct (Z.ltb_spec error 0); [lia|]. cbn [orb].
+      destruct (wq s2) eqn:Hq; cbn; [left; exact Hq | right; left; exact Ha]. }
+    pose proof (run_cb_prog _ P3) as P4.
+    destruct (negb (fdopen (run_cb beh (ev (EConnCb error) s3)))); exact P4.
+Qed.
+
+Lemma stream_io_kc s : KC s (stream_io beh s).
+Proof.
+  unfold stream_io. destruct (connecting s); [apply stream_connect_kc|].
+  destruct (uv_write_queue_frame s) as (A & B & _).
+  assert (K1 : KC s (uv_write_queue s)) by (apply KC_same; auto).
+  destruct (write_callbacks_kc_cd (uv_write_queue s)) as [K2 _].
   set (s2 := write_callbacks beh (uv_write_queue s)) in *.
-  destruct (wq s2) eqn:Hq; [|split; auto; unfold cl_mono in *; auto].
-  destruct (cq s2); [|split; auto; unfold cl_mono in *; auto].
-  destruct (drain_prog s2 (or_introl Hq)) as [E F]. split; auto. unfold cl_mono in *; auto.
+  assert (K : KC s s2) by (eapply KC_trans; eauto).
+  destruct (wq s2); auto. destruct (cq s2); auto.
+  eapply KC_trans; [exact K | apply drain_kc].
 Qed.
 
-Lemma destroy_prog s : closing s = true -> Prog (destroy beh s) /\ cl_mono s (destroy beh s).
+Lemma stream_io_prog s : PreIO s -> Prog (stream_io beh s).
 Proof.
-  intros Hc. unfold destroy.
-  set (s1 := flush (set_closed true s)).
-  assert (P1 : Prog s1) by (left; exact Hc).
-  destruct (write_callbacks_prog s1 P1) as [A B].
-  assert (C2 : closing (write_callbacks beh s1) = true) by (apply B; exact Hc).
-  destruct (drain_prog _ (or_intror C2)) as [E F]. split.
-  - apply (Prog_same (drain beh (write_callbacks beh s1))); auto.
-  - unfold cl_mono in *. intros _. cbn. auto.
+  intros [F H].
+  destruct H as [Hcl|H].
+  { (* closing: stays closing *)
+    destruct (stream_io_kc s) as [A B]. split; [apply B; exact F | left; apply A; exact Hcl]. }
+  unfold stream_io. destruct (connecting s) eqn:Hc; [apply stream_connect_prog; auto|].
+  destruct (uv_write_queue_frame s) as (A & B & C & D).
+  assert (P1 : Prog (uv_write_queue s)).
+  { split; [unfold FC; rewrite A, B; exact F|]. right. rewrite C, Hc. apply write_loop_prog. }
+  pose proof (write_callbacks_prog _ P1) as P2.
+  destruct (write_callbacks_kc_cd (uv_write_queue s)) as [_ [Cc _]].
+  set (s2 := write_callbacks beh (uv_write_queue s)) in *.
+  destruct (wq s2) eqn:Hq; auto. destruct (cq s2); auto.
+  apply drain_prog; [apply P2 | rewrite Cc, C; exact Hc | left; exact Hq].
 Qed.
 
-Lemma run_pending_prog s : Prog s -> Prog (run_pending beh s) /\ cl_mono s (run_pending beh s).
+Lemma destroy_prog s : FC s -> closing s = true -> Prog (destroy beh s).
 Proof.
-  intros P. unfold run_pending. destruct (fed s).
-  - apply (stream_io_prog (set_fed false s)).
-  - split; [exact P | unfold cl_mono; auto].
+  intros F Hc. unfold destroy.
+  set (s0 := set_closed true s).
+  match goal with |- context [flush ?x] => set (sc1 := x) end.
+  assert (K1 : KC s sc1).
+  { unfold sc1. destruct (connecting s0); [|apply KC_same; reflexivity].
+    eapply KC_trans; [apply (KC_same s (ev (EConnCb UV_ECANCELED) s0)); reflexivity|].
+    eapply KC_trans; [apply run_cb_kc_cd|]. apply KC_same; reflexivity. }
+  destruct (write_callbacks_kc_cd (flush sc1)) as [K2 _].
+  pose proof (drain_kc (write_callbacks beh (flush sc1))) as K3.
+  assert (K : KC s (drain beh (write_callbacks beh (flush sc1)))).
+  { eapply KC_trans; [exact K1|]. eapply KC_trans; [apply (KC_same sc1 (flush sc1)); reflexivity|].
+    eapply KC_trans; eauto. }
+  destruct K as [Ka Kb]. split; [unfold FC; cbn; apply Kb; exact F | left; cbn; apply Ka; exact Hc].
 Qed.
 
-Lemma pending_rounds_prog k : forall s, Prog s ->
-  Prog (pending_rounds beh k s) /\ cl_mono s (pending_rounds beh k s).
+Lemma run_pending_prog s : Prog s -> Prog (run_pending beh s).
 Proof.
-  induction k as [|k IH]; intros s P; cbn [pending_rounds].
-  - split; [exact P | unfold cl_mono; auto].
-  - destruct (fed s) eqn:Hf.
-    + destruct (run_pending_prog s P) as [A B]. destruct (IH _ A) as [C D].
-      split; auto. unfold cl_mono in *; auto.
-    + split; [exact P | unfold cl_mono; auto].
+  intros P. unfold run_pending. destruct (fed s); auto.
+  apply stream_io_prog. destruct (Prog_PreIO _ P) as [F H]. split; [exact F | exact H].
+Qed.
+
+Lemma pending_rounds_prog k : forall s, Prog s -> Prog (pending_rounds beh k s).
+Proof.
+  induction k as [|k IH]; intros s P; cbn [pending_rounds]; auto.
+  destruct (fed s); auto. apply IH, run_pending_prog, P.
 Qed.
 
 Lemma run_iter_prog s : Prog s -> Prog (run_iter beh s).
 Proof.
   intros P. unfold run_iter.
-  destruct (run_pending_prog s P) as [A _].
+  pose proof (run_pending_prog s P) as A.
   set (s1 := run_pending beh s) in *.
   set (s1' := set_pollw (tl (pollw s1)) s1).
   assert (P1 : Prog s1') by (apply (Prog_same s1); auto).
   match goal with |- context [if armed s1' && ?w then _ else _] => set (b := armed s1' && w) end.
   assert (P2 : Prog (if b then stream_io beh s1' else s1')).
-  { destruct b; auto. apply stream_io_prog. }
-  destruct (pending_rounds_prog 8 _ P2) as [P3 _].
+  { destruct b; auto. apply stream_io_prog, Prog_PreIO, P1. }
+  pose proof (pending_rounds_prog 8 _ P2) as P3.
   match goal with |- context [if closing ?x && _ then _ else _] => set (s3 := x) in * end.
   destruct (closing s3 && negb (closed s3)) eqn:Hc; auto.
-  apply andb_prop in Hc. destruct Hc as [Hc _]. apply destroy_prog; auto.
+  apply andb_prop in Hc. destruct Hc as [Hc _]. apply destroy_prog; [apply P3 | exact Hc].
 Qed.
 
 Lemma step_prog s o : Prog s -> Prog (step beh s o).
@@ -1929,12 +2360,78 @@ Qed.
 
 End ProgCb.
 
+Lemma Prog_init blk o sa pw c ip : Prog (init blk o sa pw c ip).
+Proof.
+  destruct c as [[[tcp cres] so]|]; unfold init.
+  - destruct (conn_pending_ok cres) eqn:Hp.
+    + split; [unfold FC; cbn; discriminate|]. right; cbn. split; [left; auto | auto].
+    + assert (Hd : (conn_derr cres < 0)%Z /\ conn_derr cres <> (- EINPROGRESS)%Z).
+      { destruct cres as [e|]; [|discriminate]. simpl in *. split; [lia|].
+        intros X. inversion X; subst. discriminate. }
+      destruct tcp; (split; [unfold FC; cbn; discriminate|]); right; cbn; (split; [right; exact Hd | auto]).
+  - split; [unfold FC; cbn; discriminate|]. right; cbn. auto.
+Qed.
+
 (* C05_progress *)
-Theorem progress beh blk o sa pw ops :
-  let s := exec beh (init blk o sa pw) ops in
-  wq s <> [] -> closing s = false -> armed s = true \/ fed s = true.
+Theorem progress beh blk o sa pw c ip ops :
+  let s := exec beh (init blk o sa pw c ip) ops in
+  wq s <> [] \/ connecting s = true -> closing s = false -> armed s = true \/ fed s = true.
 Proof.
   intros s Hq Hc.
-  assert (P : Prog s) by (apply exec_prog; right; left; reflexivity).
-  destruct P as [P|[P|P]]; [congruence | contradiction | exact P].
+  assert (P : Prog s) by (apply exec_prog, Prog_init).
+  destruct P as [_ [P|P]]; [congruence|].
+  destruct (connecting s); [apply P|]. destruct Hq as [Hq|Hq]; [|discriminate].
+  destruct P as [P|P]; [contradiction | exact P].
+Qed.
+
+(* uv_try_write while a connect is pending *)
+Theorem try_write_while_connecting s bufs :
+  connecting s = true ->
+  api_try s bufs =
+    ev (ETryRet (next_id s) UV_EAGAIN) (ev (ETry (next_id s) (sumN bufs)) (set_next_id (S (next_id s)) s)).
+Proof.
+  intros H. unfold api_try.
+  change (connecting (ev (ETry (next_id s) (sumN bufs)) (set_next_id (S (next_id s)) s))) with (connecting s).
+  rewrite H. reflexivity.
+Qed.
+
+(* uv_write while a connect is pending queues without a system call *)
+Theorem write_while_connecting s bufs :
+  connecting s = true -> check_before_write s = None ->
+  oracle (api_write s bufs) = oracle s /\ armed (api_write s bufs) = armed s /\
+  wq (api_write s bufs) = wq s ++ [mkReq (next_id s) (sumN bufs) bufs O 0 0%Z false false].
+Proof.
+  intros H Hc. unfold api_write.
+  change (check_before_write (ev (EWrite (next_id s) (sumN bufs)) (set_next_id (S (next_id s)) s)))
+    with (check_before_write s). rewrite Hc. cbn. rewrite H. cbn. auto.
+Qed.
+
+(* ------------------------------------------------------------------ *)
+(* a pending uv_shutdown must keep a wake-up                           *)
+(* ------------------------------------------------------------------ *)
+Definition shutdown_progress (s : st) : Prop :=
+  shutreq s = true -> closing s = false -> armed s = true \/ fed s = true.
+
+(* C05_shutdown_progress_refuted: uv_shutdown while the connect is pending and
+   nothing is queued; uv__stream_connect stops POLLOUT and nobody drains *)
+Theorem shutdown_progress_refuted :
+  exists beh cfg ops, ~ shutdown_progress (exec beh (init false [] 0%Z [] cfg false) ops).
+Proof.
+  exists (fun _ => []), (Some (true, Some 115%positive, [0%Z])), [OShutdown; ORun].
+  intros H. assert (X : false = true \/ false = true) by (apply H; vm_compute; reflexivity).
+  destruct X; discriminate.
+Qed.
+
+(* C05_shutdown_progress_partial: an accepted uv_shutdown on a stream with no connect
+   pending leaves a wake-up behind (the pending queue when nothing is queued, else
+   whatever serves the write queue). *)
+Theorem shutdown_progress_partial s :
+  Prog s -> connecting s = false ->
+  writable s = true -> shut s = false -> shutreq s = false -> closing s = false -> closed s = false ->
+  shutreq (api_shutdown s) = true /\
+  (armed (api_shutdown s) = true \/ fed (api_shutdown s) = true).
+Proof.
+  intros [_ P] Hc Hw Hs Hr Hcl Hcd. unfold api_shutdown. rewrite Hw, Hs, Hr, Hcl, Hcd. cbn.
+  destruct (wq s) eqn:Hq; cbn; [auto|]. split; [reflexivity|].
+  destruct P as [P|P]; [congruence|]. rewrite Hc in P. destruct P as [P|P]; [congruence | exact P].
 Qed.
